@@ -1103,14 +1103,14 @@ class MultiTestResult(TestResult):
 
     def _keeping_failfast(self, reset):
         # The base class (re)initialises itself by assigning to failfast,
-        # which here means assigning to every wrapped result: put back what
-        # each of them had.
-        saved = [result.failfast for result in self._results]
+        # which here would mean assigning to every wrapped result (and, for a
+        # wrapped MultiTestResult, to everything below it): ignore those
+        # assignments so that each result keeps its own setting.
+        self._failfast_frozen = True
         try:
             return reset()
         finally:
-            for result, failfast in zip(self._results, saved):
-                result.failfast = failfast
+            self._failfast_frozen = False
 
     def __repr__(self):
         return "<{} ({})>".format(
@@ -1126,6 +1126,8 @@ class MultiTestResult(TestResult):
         return getattr(self._results[0], "failfast", False)
 
     def _set_failfast(self, value):
+        if getattr(self, "_failfast_frozen", False):
+            return
         self._dispatch("__setattr__", "failfast", value)
 
     failfast = property(_get_failfast, _set_failfast)
